@@ -36,6 +36,9 @@ type SpecEnv struct {
 	bound    map[string]tv
 	alloc    Term
 	oldAlloc Term
+	// locals visible under old(): only for contracts applied at a call site
+	// (the caller's private locals are not changed by the call)
+	oldLocals func(name string) (tv, bool)
 }
 
 type specErr struct{ msg string }
@@ -183,7 +186,7 @@ func (env *SpecEnv) withOld() *SpecEnv {
 	if env.oldAlloc.S != "" {
 		n.alloc = env.oldAlloc
 	}
-	n.locals = nil
+	n.locals = env.oldLocals
 	return &n
 }
 
